@@ -40,6 +40,24 @@ def session(r, corrupt_p=0.5, retransmit_p=0.6):
     return evs, n_corrupt
 
 
+def optimised_sessions(n, seed_tag):
+    """(runs in a child interpreter under -O) sessions with damaged frames against the reference receiver"""
+    r = common.rng(seed_tag)
+    bad = []
+    done = 0
+    for _ in range(n):
+        evs, nc = session(r)
+        if any(gens.is_vendor_line(e[1]) for e in evs if e[0] == "d"):
+            continue
+        fmt = r.choice(["astm", "lis2a"])
+        i, clause = recv.first_failure(fmt, evs + gens.PROBE)
+        done += 1
+        if i is not None and len(bad) < 3:
+            bad.append({"format": fmt, "events": [gens.ev_hex(e) for e in evs + gens.PROBE], "at": i, "clause": clause,
+                        "assertions_enabled": __debug__})
+    return {"evaluations": done, "failures": bad, "debug": __debug__}
+
+
 def run(ctx):
     r = ctx.rng("C01")
     s = Stream("sessions")
@@ -52,6 +70,19 @@ def run(ctx):
         s.count("corrupted_frames", nc)
     run_histories_fmt(s, hs, ctx)
     streams = [s]
+
+    # the same kind of sessions in an interpreter started with -O (assert statements are compiled away there)
+    oq = Stream("python-O")
+    res = common.run_under_O("C01", "optimised_sessions", 3000 if ctx.thorough else 400, "C01.O/%d" % common.seed())
+    oq.evaluations += res["evaluations"]
+    oq.nontrivial.update(range(res["evaluations"]))
+    oq.samples.append({"interpreter": "python -O", "assertions_enabled": res["debug"]})
+    if res["debug"]:
+        oq.fail({"interpreter": "python -O"}, "the child interpreter did not run with -O", "python-O/not-optimised")
+    for f in res["failures"][:1]:
+        oq.fail(f, "under python -O, unit %d of the session is not answered / delivered as the checksums demand (%s)"
+                % (f["at"], f["clause"]), "python-O/%s" % f["clause"])
+    streams.append(oq)
 
     # exhaustive single-byte corruption of every frame of a few sessions: position x 255 values
     e = Stream("exhaustive-corruption")
